@@ -68,7 +68,10 @@ def lc_setup(ctx):
     outcome = ctx.choose(4, "load_value")  # 0 dict, 1 non-dict document, 2 loader exception, 3 other exception
     key_given = ctx.choose(2, "key-given") == 1
     ctx.classes.add("YAMLError", ["Exception"])
-    loaded = Rec("dict", methods={"get": lambda c, s_, a, k: Rec("dict", attrs={"sub": a[0]})})
+    # with a key (the section of a subcommand inside a parent's default config file) the entry under that key is what gets applied: it must be a mapping too
+    entry_kind = ["mapping", "scalar", "list", "null"][ctx.choose(4, "entry-under-the-key")] if (key_given and outcome == 0) else "mapping"
+    entry = {"mapping": Rec("dict", attrs={"sub": "k"}), "scalar": z3.Int("a-scalar-under-the-key"), "list": [1], "null": None}[entry_kind]
+    loaded = Rec("dict", methods={"get": lambda c, s_, a, k: entry})
 
     def load_value(c, a, k):
         if outcome == 0:
@@ -80,16 +83,21 @@ def lc_setup(ctx):
     self = Rec("ArgumentParser", methods={"_apply_actions": lambda c, s_, a, k: (c.event("apply", a[0]), cfg("applied"))[1]})
     calls = {"load_value": load_value, "get_loader_exceptions": lambda c, a, k: (ClassRef("YAMLError"),)}
     env = {"self": self, "cfg_str": z3.String("cfg_str"), "cfg_path": "", "ext_vars": None, "prev_cfg": None, "key": "k" if key_given else None}
-    return Setup(env=env, calls=calls, data=dict(outcome=outcome))
+    return Setup(env=env, calls=calls, data=dict(outcome=outcome, entry_kind=entry_kind, entry=entry, loaded=loaded, key_given=key_given))
 
 
 def lc_post(ctx, st, result):
-    ctx.oblige("post", "only-a-mapping-document-is-applied", st.data["outcome"] == 0)
+    d = st.data
+    ctx.oblige("post", "only-a-mapping-document-is-applied(with a key: only a mapping found under that key)", d["outcome"] == 0 and d["entry_kind"] == "mapping")
+    ap = [e for e in ctx.events if e[0] == "apply"]
+    ctx.oblige("post", "what-is-applied-is-the-document(with a key: its entry under that key),once", len(ap) == 1 and ap[0][1] is (d["entry"] if d["key_given"] else d["loaded"]))
 
 
 def lc_raises(ctx, st, exc):
     o = st.data["outcome"]
-    if o in (1, 2):
+    if o == 0:
+        ctx.oblige("raises", f"a-non-mapping-under-the-key=>TypeError(got {exc.cls}@{exc.origin})", exc.cls == "TypeError" and st.data["entry_kind"] != "mapping")
+    elif o in (1, 2):
         ctx.oblige("raises", "non-mapping-document-or-loader-error=>TypeError", exc.cls == "TypeError")
     else:
         ctx.oblige("raises", f"unanticipated-exception-passes-unchanged(got {exc.cls})", exc.origin == "load_value")
